@@ -65,6 +65,22 @@ def _replay_miller(stem, vals):
                 Gm = idx[0] * R[0] + idx[1] * R[1] + idx[2] * R[2]
                 if not np.allclose(nrm, Gm / np.linalg.norm(Gm), atol=1e-7):
                     msgs.append('plane_crystal_to_cartesian(%r) in the cell %r = %r, reciprocal-lattice direction %r' % (idx, V.tolist(), nrm.tolist(), (Gm / np.linalg.norm(Gm)).tolist()))
+        # vectors do not carry the cell origin; index arrays of any leading shape convert element by element
+        shifted = am.Box(vects=tri.vects, origin=[0.7, -1.3, 2.1])
+        for uvw in ([1, 2, -1], [0, 0, 1], [-2, 1, 3]):
+            got = m.vector_crystal_to_cartesian(uvw, shifted)
+            if not np.allclose(got, np.array(uvw, dtype=float).dot(tri.vects), atol=1e-10):
+                msgs.append('vector_crystal_to_cartesian(%r) in a cell with origin (0.7,-1.3,2.1) = %r, u a + v b + w c = %r' % (uvw, got.tolist(), np.array(uvw, dtype=float).dot(tri.vects).tolist()))
+        allidx = np.array(list(itertools.product(range(-2, 3), repeat=3)), dtype=float)[:120]
+        for shp in ((120, 3), (4, 30, 3), (2, 3, 20, 3), (5, 3, 8, 3)):
+            arr = allidx.reshape(shp)
+            try:
+                got = np.asarray(m.vector3to4(arr))
+                want = np.stack([(2 * arr[..., 0] - arr[..., 1]) / 3, (2 * arr[..., 1] - arr[..., 0]) / 3, -(arr[..., 0] + arr[..., 1]) / 3, arr[..., 2]], axis=-1)
+                if got.shape != want.shape or not np.allclose(got, want, atol=1e-12):
+                    msgs.append('vector3to4 on an index array of shape %r: shape %r / values differ from the element-wise conversion' % (shp, got.shape))
+            except Exception as e:
+                msgs.append('vector3to4 on an index array of shape %r raised %s: %s' % (shp, type(e).__name__, e))
         for idx in itertools.product(range(-3, 4), repeat=3):
             if idx == (0, 0, 0):
                 continue
@@ -213,9 +229,15 @@ def vector34(E, L):
 class _HexBox(object):
     """stand-in Box for vector_crystal_to_cartesian: vects symbolic; ishexagonal() as requested"""
 
-    def __init__(self, V, hexagonal):
+    def __init__(self, V, hexagonal, origin=None):
         self.vects = V
         self._hex = hexagonal
+        self.origin = origin if origin is not None else snp.zeros(3)
+
+    # the rest of the Box interface by its C01 contracts (a vector conversion must not use them: positions carry the origin, vectors do not)
+    def position_relative_to_cartesian(self, rel):
+        rel = snp.asarray(rel)
+        return snp.asarray(_np.asarray(rel, dtype=object).dot(_np.asarray(self.vects, dtype=object)) + _np.asarray(self.origin, dtype=object))
 
     def ishexagonal(self):
         return self._hex
@@ -227,14 +249,15 @@ def vector_c2c(E, L):
     M = _miller(L)
     V = E.reals('V', (3, 3))
     x = E.reals('x', (2, 3))
-    r = M.vector_crystal_to_cartesian(x, _HexBox(V, False))
+    org = E.reals('origin', (3,))
+    r = M.vector_crystal_to_cartesian(x, _HexBox(V, False, org))
     E.prove('vector_crystal_to_cartesian.shape', r.shape == (2, 3))
     for k in range(2):
         for j in range(3):
             E.prove('vector_crystal_to_cartesian.post[%d,%d]' % (k, j), r[k, j] == x[k, 0] * V[0, j] + x[k, 1] * V[1, j] + x[k, 2] * V[2, j])
     u, v, w = E.real('u'), E.real('v'), E.real('w')
     q = snp.array([u, v, -(u + v), w])
-    r4 = M.vector_crystal_to_cartesian(q, _HexBox(V, True))
+    r4 = M.vector_crystal_to_cartesian(q, _HexBox(V, True, org))
     for j in range(3):
         E.prove('vector_crystal_to_cartesian.hex[%d]' % j, r4[j] == u * V[0, j] + v * V[1, j] - (u + v) * (-V[0, j] - V[1, j]) + w * V[2, j])
     try:
